@@ -596,7 +596,7 @@ func (l *IPFSLog) Join(otherLog iface.IPFSLog, size int) (iface.IPFSLog, error) 
 
 	if size > -1 {
 		tmp := l.values().Slice()
-		tmp = tmp[len(tmp)-size:]
+		tmp = tmp[len(tmp)-minInt(size, len(tmp)):]
 
 		entries := entry.NewOrderedMapFromEntries(tmp)
 		heads := entry.NewOrderedMapFromEntries(entry.FindHeads(entry.NewOrderedMapFromEntries(tmp)))
